@@ -528,3 +528,68 @@ def expm1_over_x_series(R, eps_bits=200):
         if t < Fr(1, 1 << eps_bits) and R / (k + 2) < Fr(1, 2):
             break
     return Series(Poly(c), _geom_tail(t, R / (k + 2)), R)
+
+
+# ---------------------------------------------------------------- the scaled complementary error function
+def inv_sqrt_pi():
+    if 'isp' not in _CACHE:
+        p_ = pi()
+        s_lo, s_hi = sqrt_qi(p_.lof()), sqrt_qi(p_.hif())
+        _CACHE['isp'] = QI(1) / QI(s_lo.lo, s_hi.hi, True)
+    return _CACHE['isp']
+
+
+def erfcx_point(x, eps_bits=300):
+    """enclosure of g(x) = exp(x^2) erfc(x) at a rational x >= 1/2: Laplace's continued fraction
+         sqrt(pi) g(x) = 1/(x + (1/2)/(x + (2/2)/(x + (3/2)/(x + ...))))
+    has positive elements, so consecutive convergents bracket the value; the depth is doubled until they agree to eps_bits"""
+    x = Fr(x)
+    if x < Fr(1, 2):
+        raise ValueError('erfcx_point needs x >= 1/2')
+    key = ('erfcx', x, eps_bits)
+    if key in _CACHE:
+        return _CACHE[key]
+    X = QI(x)
+
+    def conv(n):
+        t = X
+        for k in range(n, 0, -1):
+            t = X + QI(Fr(k, 2)) / t
+        return QI(1) / t
+    n = 64
+    while True:
+        a, b = conv(n), conv(n + 1)
+        h = a.hull(b)
+        if h.hi - h.lo < (ONE >> eps_bits) or n > 200000:
+            break
+        n *= 2
+    if h.hi - h.lo >= (ONE >> eps_bits):
+        raise ValueError('continued fraction did not converge')
+    r = h * inv_sqrt_pi()
+    _CACHE[key] = r
+    return r
+
+
+def erfcx_derivs(x, n):
+    """[g(x), g'(x), ..., g^(n)(x)] as QIs:  g' = 2 x g - 2/sqrt(pi),  g^(k+1) = 2 x g^(k) + 2 k g^(k-1)"""
+    x = Fr(x)
+    g = [erfcx_point(x)]
+    g.append(g[0] * (2 * x) - inv_sqrt_pi() * 2)
+    for k in range(1, n):
+        g.append(g[k] * (2 * x) + g[k - 1] * (2 * k))
+    return g[:n + 1]
+
+
+def erfcx_taylor(c, h, n=14):
+    """(Poly in t = x - c with QI coefficients, remainder bound) of g on [c - h, c + h], c - h >= 1/2.  g is completely
+    monotone ((-1)^k g^(k) > 0 and decreasing in x), so |g^(n+1)| on the piece is at most its value at the left end."""
+    c, h = Fr(c), Fr(h)
+    d = erfcx_derivs(c, n)
+    co, f = [], 1
+    for k in range(n + 1):
+        if k:
+            f *= k
+        co.append(d[k] * Fr(1, f))
+    dl = erfcx_derivs(c - h, n + 1)
+    rem = dl[n + 1].mag() * h ** (n + 1) / (f * (n + 1))
+    return Poly(co), rem
